@@ -7,6 +7,25 @@ import os, re, subprocess
 from verifpy.common import ROOT, BUILD, LEAN, sh, Lock
 from verifpy.envelope import build_overlay
 
+def preempt_part(ctx, prop, scenario_filter):
+    """run the preemption explorer on the scenarios matching the filter and collect this property's violations"""
+    ov = build_overlay(ctx, sync=True)
+    hx = ctx.build_go("hxconc", overlay=ov) if ov else None
+    if not hx: return 0
+    tr = os.path.join(ctx.work, "preempt-%s.out" % prop)
+    if not ctx.run_harness(hx, ["-mode", "preempt", "-scenario", scenario_filter], tr, timeout=1500): return 0
+    lines = open(tr).read().splitlines()
+    n = 0
+    for l in lines:
+        if l.startswith("sched"): n += 1
+        if ("prop=" + prop) in l and l.endswith("VIOLATION"):
+            ctx.monitor_fail.append({"what": l[:400], "signature": "conc " + l[:200],
+                                     "case": "# replay: build/hxconc -mode preempt -scenario %s (deterministic; the schedule is the line below)\n%s" % (scenario_filter, l)})
+    ctx.cov["evaluations"] += n
+    ctx.notes["preempt_schedules"] = n
+    return n
+
+
 def run(ctx, prop, modules, model, bfs_quick, bfs_thorough, scenario_filter, stress_quick, stress_thorough):
     ctx.extract()
     ctx.prove(modules)
@@ -54,6 +73,8 @@ def run(ctx, prop, modules, model, bfs_quick, bfs_thorough, scenario_filter, str
             kv = dict(x.split("=", 1) for x in summ[-1].split()[1:])
             sched += int(kv.get("schedules", 0)); viol += int(kv.get("violations", 0))
             for l in lines:
+                if "prop=C20" in l and prop != "C20": continue        # call-count clause belongs to C20
+                if prop == "C20" and "prop=C20" not in l and "SETUP-FAILED" not in l: continue
                 if l.endswith("VIOLATION") or "SETUP-FAILED" in l:
                     ctx.monitor_fail.append({"what": l[:400], "signature": "conc " + l[:200],
                                              "case": "# replay: build/hxconc -mode %s (deterministic for preempt; the schedule is the line below)\n%s" % (name.split("-")[0], l)})
